@@ -68,6 +68,9 @@ type appSpec struct {
 	RLat        []int             `json:"receiver_address_latency_ms"` // one per receiver address (one-way, both directions)
 	SLat        []int             `json:"sender_address_latency_ms"`
 	RDead       []bool            `json:"receiver_address_unreachable,omitempty"` // addresses the receiver offers but the sender cannot reach (another network)
+	// Sel (part C01APP): what is named on the host's command line, relative to the directory
+	// the files of this run live in - directories and single files, with equal base names
+	Sel         []string          `json:"host_command_line,omitempty"`
 	RMaxStreams int               `json:"receiver_quic_max_incoming_streams,omitempty"` // thru join --quic-max-incoming-streams (0 = default 100)
 	MLat        int               `json:"attacker_latency_ms"`
 	MDelayMs    int               `json:"attacker_delay_ms"`
@@ -158,6 +161,45 @@ func (h appHarness) Gen(r *verifsim.SplitMix, tier string, idx int) any {
 		}
 		if r.Chance(1, 3) {
 			sp.ConnsS, sp.ConnsR = 2, 2+r.Intn(2)
+		}
+	case "C01APP":
+		// several things named on the command line: directories (with nested files) and
+		// single files, base names repeating across them
+		sp.Scenario = "honest"
+		sp.Files = nil
+		names := []string{"x.bin", "y.bin", "x.bin", "data", "a b.txt"}
+		size := func() int { return []int{0, 1, sp.Chunk - 1, sp.Chunk, 2*sp.Chunk + 3, 7 * sp.Chunk}[r.Intn(6)] }
+		for _, d := range []string{"da", "db", "dc/da"} {
+			if r.Chance(2, 3) {
+				sp.Sel = append(sp.Sel, d)
+				for i, n := 0, 1+r.Intn(3); i < n; i++ {
+					f := names[r.Intn(len(names))]
+					if r.Chance(1, 3) {
+						f = "sub/" + f
+					}
+					dup := false
+					for _, e := range sp.Files {
+						dup = dup || e.P == d+"/"+f
+					}
+					if !dup {
+						sp.Files = append(sp.Files, appFile{P: d + "/" + f, N: size()})
+					}
+				}
+			}
+		}
+		for i := 0; i < 3; i++ {
+			if r.Chance(1, 2) {
+				f := fmt.Sprintf("l%d/%s", i, names[r.Intn(len(names))])
+				sp.Sel = append(sp.Sel, f)
+				sp.Files = append(sp.Files, appFile{P: f, N: size()})
+			}
+		}
+		if len(sp.Sel) == 0 {
+			sp.Sel = []string{"da"}
+			sp.Files = []appFile{{P: "da/x.bin", N: size()}}
+		}
+		if r.Chance(1, 2) {
+			sp.ConnsS, sp.ConnsR = 1+r.Intn(3), 1+r.Intn(4)
 		}
 	default:
 		sp.Scenario = "honest"
@@ -332,6 +374,13 @@ func (h appHarness) Run(spec any) (res verifsim.RunResult) {
 	}
 	logger := slog.New(slog.NewTextHandler(io.Discard, nil))
 	flags := []string{"--ws-connects-per-min", "0", "--session-creates-per-min", "0"}
+	hostPaths := []string{src}
+	if len(sp.Sel) > 0 {
+		hostPaths = nil
+		for _, e := range sp.Sel {
+			hostPaths = append(hostPaths, filepath.Join(src, filepath.FromSlash(e)))
+		}
+	}
 
 	var mu sync.Mutex
 	var sErr, rErr error
@@ -342,6 +391,7 @@ func (h appHarness) Run(spec any) (res verifsim.RunResult) {
 	var mEngineErr string
 	var mEngineRan bool
 	var mRecs []*mConnRec
+	selectionRefused := false
 	type sLink struct {
 		o *verifsim.UDPSock
 		p *verifsim.UDPPath
@@ -538,7 +588,7 @@ func (h appHarness) Run(spec any) (res verifsim.RunResult) {
 		var done atomic.Int32
 		verifsim.Go("S", func() {
 			err := app.RunSnapshotSender(ctxS, logger, app.SnapshotSenderConfig{
-				ServerURL: srvURL, Paths: []string{src}, MaxReceivers: 2, ReceiverTTL: 10 * time.Minute,
+				ServerURL: srvURL, Paths: hostPaths, MaxReceivers: 2, ReceiverTTL: 10 * time.Minute,
 				ParallelConnections: sp.ConnsS, StunServers: []string{"10.9.9.9:3478"},
 				TransferOpts: transfer.Options{ChunkSize: uint32(sp.Chunk), ParallelFiles: sp.Streams},
 			})
@@ -564,6 +614,13 @@ func (h appHarness) Run(spec any) (res verifsim.RunResult) {
 		w.run(func() bool { return getCode() != "" }, 30*time.Second)
 		joinCode = getCode()
 		if joinCode == "" {
+			mu.Lock()
+			refused := sRet && sErr != nil && len(sp.Sel) > 0
+			mu.Unlock()
+			if refused {
+				selectionRefused = true // the tool refused this command line (names it cannot tell apart)
+				return
+			}
 			addV("harness-panic", "app:no-join-code", "the sender did not create a session within 30 simulated seconds")
 			return
 		}
@@ -872,6 +929,53 @@ func (h appHarness) Run(spec any) (res verifsim.RunResult) {
 	got := appDigest(out)
 	diff := func() string {
 		var d []string
+		if len(sp.Sel) > 0 {
+			// Everything named on the command line arrives under its own base name (the tool may
+			// put an ordinal in front of a top-level name to tell equal ones apart), paths inside
+			// a named directory are kept; nothing else arrives. Contents are unique per source
+			// path, so each received file is matched with the one source file it must be.
+			used := map[string]bool{}
+			for _, f := range sp.Files {
+				b := appContent(sp.ContentSeed, f.P, f.N)
+				hv := fmt.Sprintf("%d:%x", len(b), sha256.Sum256(b))
+				tail := ""
+				for _, e := range sp.Sel {
+					if f.P == e {
+						tail = filepath.Base(e)
+					} else if strings.HasPrefix(f.P, e+"/") {
+						tail = filepath.Base(e) + strings.TrimPrefix(f.P, e)
+					}
+				}
+				found := false
+				for k, g := range got {
+					if used[k] || g != hv {
+						continue
+					}
+					top := k
+					if i := strings.IndexByte(k, '/'); i >= 0 {
+						top = k[:i]
+					}
+					stripped := k
+					if j := strings.IndexByte(top, '_'); j > 0 && strings.Trim(top[:j], "0123456789") == "" {
+						stripped = k[j+1:]
+					}
+					if k == tail || stripped == tail {
+						used[k], found = true, true
+						break
+					}
+				}
+				if !found {
+					d = append(d, "missing or wrong "+f.P+" (expected as "+tail+")")
+				}
+			}
+			for k := range got {
+				if !used[k] {
+					d = append(d, "extra "+k)
+				}
+			}
+			sort.Strings(d)
+			return strings.Join(d, ", ")
+		}
 		for k, v := range want {
 			if g, ok := got[k]; !ok {
 				d = append(d, "missing "+k)
@@ -958,8 +1062,12 @@ func (h appHarness) Run(spec any) (res verifsim.RunResult) {
 	if rExited && rExit == 0 && diff != "" {
 		addV("tree-differs", "app:"+sp.Scenario, fmt.Sprintf("the receiver exited with status 0 but its output differs from what the sender hosts: %s", diff))
 	}
+	if selectionRefused {
+		res.Counters["host_refused_the_command_line"]++
+		res.Skipped = true
+	}
 	// 3. healthy peers get through
-	healthy := sp.Scenario == "honest" || sp.Scenario == "multipath"
+	healthy := (sp.Scenario == "honest" || sp.Scenario == "multipath") && !selectionRefused
 	if healthy {
 		switch {
 		case outcome != verifsim.Finished || !rExited:
